@@ -112,7 +112,7 @@ Definition txcache_check_independent_full : Prop :=
 (* secp256k1 (type 1) enabled from height 10; one valid transfer of fee 100000, one fee unit *)
 Definition w_member : mtx := mkM 0 100000 (Some 1) (Some 0%N) None false.
 Definition tc_w : tconfig :=
-  mkTc [(1%N, (true, 10))] (fun _ => Some (1, true)) 0 100 18 0 (fun _ => SSingle w_member) (fun x => x).
+  mkTc [(1%N, (true, 10))] (fun _ => Some (1, true)) (fun _ => true) 0 100 18 0 (fun _ => SSingle w_member) (fun x => x).
 
 Lemma txcache_sign_refuted : ~ txcache_sign_independent_full.
 Proof. intro H. specialize (H tc_w 0%N 5 20). vm_compute in H. discriminate H. Qed.
@@ -185,7 +185,8 @@ Lemma msign_mono : forall tc h h' m, 0 <= h <= h' -> msign tc h m = true -> msig
 Proof.
   intros tc h h' m Hh. unfold msign. destruct (m_sig m) as [k|]; [|discriminate].
   destruct (tc_sig tc k) as [[ty okv]|]; [|discriminate].
-  intro H. apply andb_true_iff in H as [H1 H2]. rewrite (load_ok_mono _ _ _ _ Hh H1), H2. reflexivity.
+  intro H. apply andb_true_iff in H as [H0 H]. apply andb_true_iff in H as [H1 H2].
+  rewrite H0, (load_ok_mono _ _ _ _ Hh H1), H2. reflexivity.
 Qed.
 
 (** a signature valid at a height >= 0 stays valid at every later height *)
@@ -237,7 +238,7 @@ Qed.
 Lemma msign_refines_check_sign : forall tc c m k ty okv h,
   m_sig m = Some k -> tc_sig tc k = Some (ty, okv) ->
   c_sig c k = Some (crypto_id ty, okv) -> c_cry c = tc_cry tc ->
-  msign tc h m = check_sign c k h.
+  msign tc h m = tc_fok tc k && check_sign c k h.
 Proof.
   intros tc c m k ty okv h M S CS CC. unfold msign, check_sign, load_ok, crypto_enabled.
   rewrite M, S, CS, CC. reflexivity.
